@@ -10,8 +10,10 @@ import (
 	cmtproto "github.com/cometbft/cometbft/proto/tendermint/types"
 
 	errorsmod "cosmossdk.io/errors"
+	sdkmath "cosmossdk.io/math"
 
 	sdk "github.com/cosmos/cosmos-sdk/types"
+	minttypes "github.com/cosmos/cosmos-sdk/x/mint/types"
 
 	band "github.com/bandprotocol/chain/v3/app"
 	bandtesting "github.com/bandprotocol/chain/v3/testing"
@@ -97,4 +99,14 @@ func Atomically(ctx sdk.Context, f func(ctx sdk.Context) error) string {
 		write()
 	}
 	return s
+}
+
+// Fund mints `amt` of denom to addr (through the mint module account).
+func (a *App) Fund(ctx sdk.Context, addr sdk.AccAddress, denom string, amt sdkmath.Int) {
+	if !amt.IsPositive() {
+		return
+	}
+	coins := sdk.NewCoins(sdk.NewCoin(denom, amt))
+	Must(a.BankKeeper.MintCoins(ctx, minttypes.ModuleName, coins))
+	Must(a.BankKeeper.SendCoinsFromModuleToAccount(ctx, minttypes.ModuleName, addr, coins))
 }
